@@ -207,8 +207,18 @@ def c18_schema():
     m2 = G("Empty", 11, fields=[])
     m3 = G("Only", 12, description="only constants and data", fields=[F("k", 1, "kneg"), F("ke", 2, "Status", presence="constant", valueRef="Status.Zed")],
            data=[D("d", 3)])
+    # group paths whose size_bytes() parameter names collide (`a`/`b` and a top-level `a_b`, `a`/`b`/`c` and `a_b`/`c`):
+    # every level has a different block length / header / data header so that a mixed-up count shows
+    m4 = G("Clash", 13, fields=[F("f", 1, "uint32")], groups=[
+        G("a", 2, fields=[F("x", 1, "uint32")], groups=[
+            G("b", 3, dimensionType="dimX", fields=[F("y", 1, "uint64")], groups=[
+                G("c", 4, fields=[F("w", 1, "uint8")], data=[D("cd", 5, "varStr")])])]),
+        G("a_b", 6, fields=[F("z", 1, "uint16")], groups=[
+            G("c", 7, dimensionType="dimX", fields=[F("v", 1, "uint32"), F("v2", 2, "uint8")])], data=[D("abd", 8)]),
+        G("a_b_c", 9, fields=[F("q", 1, "sym")]),
+    ])
     return {"package": "c18x", "id": 901, "version": 5, "semanticVersion": "5.2.1", "description": "C18 trait schema",
-            "byteOrder": "bigEndian", "types": types, "messages": [m1, m2, m3]}
+            "byteOrder": "bigEndian", "types": types, "messages": [m1, m2, m3, m4]}
 
 
 def c18_text_schema():
@@ -354,7 +364,8 @@ class Gen:
     def size_args(self, n, data, fill):
         """argument list of size_bytes: one count per group (depth first) and
         the total payload size if there is any <data>"""
-        a = [fill] * n
+        # fill "d": pairwise distinct counts, the k-th count parameter is k + 2 (Traits.tla DCnt)
+        a = [str(k + 2) for k in range(1, n + 1)] if fill == "d" else [fill] * n
         if data:
             a.append("0" if fill == "0" else "C18_DATA_TOTAL")
         return ", ".join(a)
@@ -379,6 +390,7 @@ class Gen:
             # the group's own count comes first, then the nested ones
             self.calls.append('c18::emit_extra("%s", "size_bytes_0", %s::size_bytes(%s));' % ("/".join(gp), t, self.size_args(n + 1, dat, "0")))
             self.calls.append('c18::emit_extra("%s", "size_bytes_1", %s::size_bytes(%s));' % ("/".join(gp), t, self.size_args(n + 1, dat, "1")))
+            self.calls.append('c18::emit_extra("%s", "size_bytes_d", %s::size_bytes(%s));' % ("/".join(gp), t, self.size_args(n + 1, dat, "d")))
             self.level(g, gp, "%s::entry_type<char>" % t)
         for d in lv.get("data", []):
             self.ent(path + [d["name"]], "data")
@@ -397,6 +409,7 @@ class Gen:
             t = "::sbepp::message_traits< %s >" % self.tag(mp)
             self.calls.append('c18::emit_extra("%s", "size_bytes_0", %s::size_bytes(%s));' % ("/".join(mp), t, self.size_args(n, dat, "0")))
             self.calls.append('c18::emit_extra("%s", "size_bytes_1", %s::size_bytes(%s));' % ("/".join(mp), t, self.size_args(n, dat, "1")))
+            self.calls.append('c18::emit_extra("%s", "size_bytes_d", %s::size_bytes(%s));' % ("/".join(mp), t, self.size_args(n, dat, "d")))
             self.calls.append('c18::emit_extra("%s", "value_type_public", std::is_same< %s::value_type<char>, ::%s::messages::%s<char> >::value);' % (
                 "/".join(mp), t, self.ns, m["name"]))
             self.level(m, mp, "::%s::messages::%s<char>" % (self.ns, m["name"]))
